@@ -125,6 +125,30 @@ func spoil(g *model.G, slot, n int, more ...int) *model.G {
 	return s
 }
 
+// scribble overwrites nested coordinates after they were handed to SetCoords: they are
+// the caller's, and a geometry that kept a reference to one no longer reads back what
+// it was given.
+func scribble(x any) {
+	switch v := x.(type) {
+	case geom.Coord:
+		for i := range v {
+			v[i] = -98765.4321
+		}
+	case []geom.Coord:
+		for _, c := range v {
+			scribble(c)
+		}
+	case [][]geom.Coord:
+		for _, c := range v {
+			scribble(c)
+		}
+	case [][][]geom.Coord:
+		for _, c := range v {
+			scribble(c)
+		}
+	}
+}
+
 func setCoords(t geom.T, g *model.G) (geom.T, error) {
 	switch tt := t.(type) {
 	case *geom.Point:
@@ -132,43 +156,57 @@ func setCoords(t geom.T, g *model.G) (geom.T, error) {
 			// SetCoords cannot express the empty point: it exists only through NewPointEmpty
 			return geom.NewPointEmpty(tt.Layout()), nil
 		}
-		r, err := tt.SetCoords(geom.Coord(model.Floats(g.C0)))
+		in := geom.Coord(model.Floats(g.C0))
+		r, err := tt.SetCoords(in)
+		scribble(in)
 		if r == nil {
 			return nil, err
 		}
 		return r, err
 	case *geom.LineString:
-		r, err := tt.SetCoords(model.Coords1(g.C1))
+		in := model.Coords1(g.C1)
+		r, err := tt.SetCoords(in)
+		scribble(in)
 		if r == nil {
 			return nil, err
 		}
 		return r, err
 	case *geom.LinearRing:
-		r, err := tt.SetCoords(model.Coords1(g.C1))
+		in := model.Coords1(g.C1)
+		r, err := tt.SetCoords(in)
+		scribble(in)
 		if r == nil {
 			return nil, err
 		}
 		return r, err
 	case *geom.MultiPoint:
-		r, err := tt.SetCoords(model.Coords1(g.C1))
+		in := model.Coords1(g.C1)
+		r, err := tt.SetCoords(in)
+		scribble(in)
 		if r == nil {
 			return nil, err
 		}
 		return r, err
 	case *geom.Polygon:
-		r, err := tt.SetCoords(model.Coords2(g.C2))
+		in := model.Coords2(g.C2)
+		r, err := tt.SetCoords(in)
+		scribble(in)
 		if r == nil {
 			return nil, err
 		}
 		return r, err
 	case *geom.MultiLineString:
-		r, err := tt.SetCoords(model.Coords2(g.C2))
+		in := model.Coords2(g.C2)
+		r, err := tt.SetCoords(in)
+		scribble(in)
 		if r == nil {
 			return nil, err
 		}
 		return r, err
 	case *geom.MultiPolygon:
-		r, err := tt.SetCoords(model.Coords3(g.C3))
+		in := model.Coords3(g.C3)
+		r, err := tt.SetCoords(in)
+		scribble(in)
 		if r == nil {
 			return nil, err
 		}
